@@ -2,7 +2,7 @@ open Model
 open Glue
 
 (* image argument: "-" = no volume; otherwise volumes separated by '/', files by ',',
-   a file is guid.type.size (hex); an empty volume is the empty string.
+   a file is guid.type.size[.ui] (hex); an empty volume is the empty string.
    File objects get the identities 0,1,2,... in tree order. *)
 let parse_img (s : string) : image * z =
   if s = "-" then ([], Z0) else begin
@@ -11,9 +11,16 @@ let parse_img (s : string) : image * z =
         if v = "" then [] else
           List.map (fun f ->
               match String.split_on_char '.' f with
-              | [g; t; sz] ->
+              | g :: t :: sz :: rest ->
                 let id = !n in incr n;
-                { f_id = z_of_int id; f_guid = z_of_hex g; f_type = z_of_hex t; f_size = z_of_hex sz }
+                (* optional 4th field: the file's UI section.  "n" = an ordinary name;
+                   <c><hex> = the string of GUID <hex> written in case variant c (u/l/m) *)
+                let ui = match rest with
+                  | [] | ["n"] -> None
+                  | [u] -> Some (z_of_hex (String.sub u 1 (String.length u - 1)))
+                  | _ -> failwith "bad file" in
+                { f_id = z_of_int id; f_guid = z_of_hex g; f_type = z_of_hex t; f_size = z_of_hex sz;
+                  f_ui = ui }
               | _ -> failwith "bad file") (String.split_on_char ',' v))
         (String.split_on_char '/' s) in
     (vols, z_of_int !n)
@@ -52,6 +59,7 @@ let eval fn args : string option =
   | "remove", [pol; pad; sel; img; k] ->
     let (im, nx) = parse_img img in
     let p = if sel.[0] = 'g' then guid_pred (z_of_hex (String.sub sel 1 (String.length sel - 1)))
+      else if sel.[0] = 'r' then file_pred (z_of_hex (String.sub sel 1 (String.length sel - 1)))
       else pred_of_code (z_of_hex (String.sub sel 1 (String.length sel - 1))) in
     let r = remove_run fixed (z_of_hex pol) (pad = "1") p im nx in
     Some (match r with
